@@ -33,6 +33,10 @@ structure WHist where
   /-- the engine's answers to `Position{vamm, trader}` for every deployed market × trading account after the
       previous transaction (`none`: the trace carries no query matrix) -/
   lastQp : Option (List (Nat × Nat × Engine.Position)) := none
+  /-- ghost funding checkpoints, kept by the driver from the observed HISTORY: for every (vamm, trader) the vAMM's
+      cumulative premium fraction at the moment the position's owner last traded on it, withdrew margin from it or
+      partially closed it (the events at which C11 says the funding is charged and the checkpoint moves) -/
+  ghostChk : List (Nat × Nat × Int) := []
 
 def txKind (kv : KV) : String := kv.str "msg"
 
@@ -182,6 +186,19 @@ def propsOfInvTag (tag : String) : List String :=
   else if tag == "buffer" then ["C11"]
   else ["C08"]
 
+/-- the pre-state with the sender's stored funding checkpoint on `v` replaced by the ghost checkpoint of the history -/
+def withGhostChk (w : World) (ghost : List (Nat × Nat × Int)) (v t : Nat) : Option World :=
+  match ghost.find? (fun g => g.1 == v && g.2.1 == t) with
+  | none => none
+  | some g =>
+    match w.engine.positions.find? (fun p => p.vamm == v && p.trader == t) with
+    | none => none
+    | some p =>
+      if p.chk.toInt == g.2.2 then none else
+      let c : Integer := if g.2.2 < 0 then ⟨g.2.2.natAbs, true⟩ else ⟨g.2.2.natAbs, false⟩
+      some { w with engine := { w.engine with positions := w.engine.positions.map (fun q =>
+        if q.vamm == v && q.trader == t then { q with chk := c } else q) } }
+
 /-- the accounts whose positions are queried (`ALLOW_IDS` of the harness) -/
 def QUERIED_TRADERS : List Nat := [101, 102, 103, 104, 105, 106, 110]
 
@@ -253,7 +270,24 @@ def handleWObs (acc : Acc) (h : WHist) (kv : KV) (_line : String) : Acc × WHist
     let isTrade := (tkv.str "msg" == "open" || tkv.str "msg" == "close") && tkv.bool "ok" && (tkv.get? "fault").all (· == "none")
       && obs.w.engine.positions.any (fun p => p.vamm == tkv.nat "v" && p.trader == tkv.nat "snd")
     let tradeLog := if isTrade then (tkv.nat "snd", tkv.nat "v", tkv.nat "height") :: h.tradeLog else h.tradeLog
-    let next : WHist := { h with last := obs, pending := none, liqLog := liqLog, tradeLog := tradeLog, lastQp := parseQp kv,
+    -- ghost checkpoints: a successful open / close / withdraw by the sender on `v` that leaves a record charges the funding
+    -- and moves the checkpoint to the market's latest cumulative fraction; a vanished record drops its ghost; a record
+    -- first seen without a ghost takes its stored checkpoint
+    let touched : Option (Nat × Nat) :=
+      if !(tkv.bool "ok") || !((tkv.get? "fault").all (· == "none")) then none else
+      match tkv.str "msg" with
+      | "open" | "close" | "withdraw" => some (tkv.nat "v", tkv.nat "snd")
+      | _ => none
+    let ghost0 := h.ghostChk.filter (fun g => obs.w.engine.positions.any (fun p => p.vamm == g.1 && p.trader == g.2.1))
+    let ghost1 := match touched with
+      | some (v, t) =>
+        if obs.w.engine.positions.any (fun p => p.vamm == v && p.trader == t)
+        then (v, t, (Engine.latestCum obs.w.engine v).toInt) :: ghost0.filter (fun g => !(g.1 == v && g.2.1 == t))
+        else ghost0
+      | none => ghost0
+    let ghost2 := obs.w.engine.positions.foldl (fun (gs : List (Nat × Nat × Int)) p =>
+      if gs.any (fun g => g.1 == p.vamm && g.2.1 == p.trader) then gs else (p.vamm, p.trader, p.chk.toInt) :: gs) ghost1
+    let next : WHist := { h with last := obs, pending := none, liqLog := liqLog, tradeLog := tradeLog, lastQp := parseQp kv, ghostChk := ghost2,
                                  seen := if h.seen.length < 200 then obs.w.vamms.map (fun p => (p.1, p.2.st)) ++ h.seen else h.seen }
     match parseTx tkv with
     | none => (acc.report "DISAGREE" "C08" s!"unparsed-tx:{kind}" tline, next, none)
@@ -351,6 +385,22 @@ def handleWObs (acc : Acc) (h : WHist) (kv : KV) (_line : String) : Acc × WHist
           if qall == "err" || stat.map (fun (p : Nat × Bool) => p.1) == reg.take 3
                && stat.all (fun (p : Nat × Bool) => match obs.w.vamm? p.1 with | some x => x.st.isOpen == p.2 | none => true) then acc
           else acc.report "SPECFAIL" "C14" s!"{kind}:vamm-status-query-disagrees-with-state" tline
+      -- C04 / C05 / C11 with the funding owed computed from the HISTORY's checkpoint instead of the stored one: when the
+      -- stored checkpoint of the sender's position differs from the ghost (a charge that did not move the checkpoint, or a
+      -- checkpoint moved without a charge), the payout / margin clauses are judged again on the corrected pre-state
+      let acc :=
+        match (match tx with
+               | .engine (.closePosition v _) | .engine (.withdrawMargin v _) | .engine (.openPosition v _ _ _ _) => some v
+               | _ => none) with
+        | none => acc
+        | some v =>
+          match withGhostChk h.last.w h.ghostChk v sender with
+          | none => acc
+          | some preG =>
+            let stepG : Step := { step with pre := preG }
+            let acc := (C04.check stepG ++ C04.checkPartial stepG).foldl (fun (a : Acc) t => a.report "SPECFAIL" "C04" s!"{kind}:{t}(funding-from-the-history's-checkpoint)" tline) acc
+            let acc := (C05.check stepG).foldl (fun (a : Acc) t => a.report "SPECFAIL" "C05" s!"{kind}:{t}(funding-from-the-history's-checkpoint)" tline) acc
+            (C11.checkCharge stepG).foldl (fun (a : Acc) t => a.report "SPECFAIL" "C11" s!"{kind}:{t}(funding-from-the-history's-checkpoint)" tline) acc
       -- C10 on the engine's own answers to `Position{vamm, trader}` (query view)
       let acc := match parseQp _okv with
         | some post => (qpChecks kind sender tx h.lastQp post obs.w).foldl (fun (a : Acc) t => a.report "SPECFAIL" "C10" t tline) acc
